@@ -28,7 +28,10 @@ from vf import replay                   # noqa: E402
 
 MN = ["mov", "push", "pop", "nop", "ret", "add", "call", "xor", "and", "or"]      # and / or: mnemonics that look like operator names
 MN_LIST = MN + ["movq", "nopw", "retq", "xorl"]
-OPN = ["%rax", "%rbx", "rax", "%eax", "0x8", "0x10", "%rcx"]
+# operand names: with and without '%', register names that are tails of longer ones (%di / %rdi, %ax / %eax), the integers 0 and 7
+# (what unquoted numbers load as)
+OPN = ["%rax", "%rbx", "rax", "%eax", "0x8", "0x10", "%rcx", "%di", "%ax", 0, 7]
+FIELDS_NEAR = ["%rax", "%rbx", "%eax", "%rcx", "0x8", "0x10", "0x100", "%raxx", "%rdi", "%edi", "%di", "%ax", "rax", "0x0", "0x7", "0x70"]
 FIELDS = ["%rax", "%rbx", "%eax", "%rcx", "0x8", "0x10", "0x100", "%raxx", "[%rax]", "[%rax+0x8]", "[%rax+%rbx*4]", "[%rax+%rbx*4+0x8]",
           "[%rbx+0x8]", "[+%rbx*4+0x8]", "401000", ""]
 
@@ -51,7 +54,8 @@ def gen_operand(rnd: random.Random, depth: int, caps: List[str], allow_new_cap: 
     if r < 0.42 and (caps or allow_new_cap):
         if caps and (not allow_new_cap or rnd.random() < 0.6):
             return rnd.choice(caps)
-        nm = f"&o{len(caps)}"
+        # names that differ only in letter case are different names
+        nm = ["&n", "&N", "&save", "&Save"][len(caps)] if len(caps) < 4 else f"&o{len(caps)}"
         caps.append(nm)
         return nm
     return rnd.choice(OPN)
@@ -146,7 +150,7 @@ def _plant_field(rnd: random.Random, op: Any, env: Dict[str, str]) -> str:
         if k == "$or":
             return _plant_field(rnd, rnd.choice(op[k]), env)
         if k == "$not":
-            return rnd.choice(FIELDS[:8])
+            return rnd.choice(FIELDS_NEAR)
         if k == "$deref":
             d = op[k]
             reg = lambda x: x if str(x).startswith("%") else "%" + str(x)
@@ -157,7 +161,7 @@ def _plant_field(rnd: random.Random, op: Any, env: Dict[str, str]) -> str:
             if "constant_offset" in d:
                 s += "+" + num(d["constant_offset"])
             return "[" + s + "]"
-        return rnd.choice(FIELDS[:8])
+        return rnd.choice(FIELDS_NEAR)
     op = str(op)
     if op.startswith("&"):
         return env.setdefault(op, rnd.choice(FIELDS[:6]))
@@ -186,12 +190,12 @@ def _plant(rnd: random.Random, item: Any, env: Dict[str, str], out: List[Tuple[s
             for c in kids:
                 _plant(rnd, c, env, out)
         elif name == "$not":
-            out.append((rnd.choice(MN_LIST), [rnd.choice(FIELDS[:8])]))
+            out.append((rnd.choice(MN_LIST), [rnd.choice(FIELDS_NEAR)]))
         else:
             ops = body if isinstance(body, list) else []
             fields = [_plant_field(rnd, o, env) for o in ops] or [""]
             if rnd.random() < 0.3:
-                fields.append(rnd.choice(FIELDS[:8]))
+                fields.append(rnd.choice(FIELDS_NEAR))
             out.append((rnd.choice([str(name), str(name), str(name) + "l"]), fields))
 
 
@@ -203,7 +207,7 @@ def gen_records(rnd: random.Random, rule: Dict[str, Any]) -> List[Tuple[str, str
         for it in rule["pattern"]:
             _plant(rnd, it, env, body)
             if rnd.random() < 0.12:
-                body.append((rnd.choice(MN_LIST), [rnd.choice(FIELDS[:8])]))
+                body.append((rnd.choice(MN_LIST), [rnd.choice(FIELDS_NEAR)]))
         if rnd.random() < 0.3 and body:
             body = body + body           # adjacent occurrences
         pre = [(rnd.choice(MN_LIST), [rnd.choice(FIELDS)]) for _ in range(rnd.choice([0, 1, 2]))]
@@ -225,9 +229,47 @@ def gen_records(rnd: random.Random, rule: Dict[str, Any]) -> List[Tuple[str, str
 
 
 # --------------------------------------------------------------------------- den sweep (C01-C07, C11, C12)
+def _fixed_den_cases():
+    """deterministic rule / listing pairs at the edges of the generators (always part of the den sweep)"""
+    R = lambda *ops: [(format(0x10 + 3 * k, "x"), mn, list(f)) for k, (mn, f) in enumerate(ops)]
+    d8 = lambda a, b: {"$deref": {"main_reg": [{"$or": [a, b]}], "constant_offset": "0x8"}}
+    return [
+        # capture names that differ only in letter case are different names
+        ({"pattern": [{"mov": ["&N", "&n"]}]}, R(("mov", ["0x10", "%rax"]))),
+        ({"pattern": [{"mov": ["&N", "&n"]}]}, R(("mov", ["%rax", "%rax"]))),
+        ({"pattern": ["&Save", "&save", "&Save"]}, R(("push", ["%rbp"]), ("ret", [""]), ("push", ["%rbp"]))),
+        # operand names with '%': a literal name, not "the register, however it is spelled"
+        ({"pattern": [{"mov": ["%di", "%rax"]}]}, R(("mov", ["%rdi", "%rax"]))),
+        ({"pattern": [{"mov": ["%ax"]}]}, R(("mov", ["%eax", "%ebx"]))),
+        ({"pattern": [{"mov": ["%rax"]}]}, R(("mov", ["rax", "%rbx"]))),
+        ({"config": {"operands-full-match": True}, "pattern": [{"mov": ["%rax", "%rbx"]}]}, R(("mov", ["rax", "%rbx"]), ("mov", ["%rax", "%rbx"]))),
+        # two $deref items that differ only in the alternatives of an operator field
+        ({"pattern": [{"mov": [d8("rsp", "rbp"), "%rax"]}, {"mov": [d8("rdi", "rsi"), "%rax"]}]},
+         R(("mov", ["[%rsp+0x8]", "%rax"]), ("mov", ["[%rdi+0x8]", "%rax"]))),
+        ({"pattern": [{"mov": [d8("rsp", "rbp"), "%rax"]}, {"mov": [d8("rdi", "rsi"), "%rax"]}]},
+         R(("mov", ["[%rsp+0x8]", "%rax"]), ("mov", ["[%rbp+0x8]", "%rax"]))),
+        # the integer 0 as an operand / alternative / $deref offset inside operators
+        ({"pattern": [{"mov": [{"$or": [0, 7]}, "eax"]}]}, R(("mov", ["0x0", "%eax"]))),
+        ({"pattern": [{"mov": [{"$and": [0, "eax"]}]}]}, R(("mov", ["%eax", "%ebx"]))),
+        ({"pattern": [{"mov": [{"$and_any_order": ["eax", 0]}]}]}, R(("mov", ["0x0", "%eax"]), ("mov", ["%eax", "%ebx"]))),
+        # repeated children of $and_any_order: each child is used exactly once
+        ({"pattern": ["push", {"$and_any_order": ["nop", "nop", "ret"]}, "pop"]}, R(("push", [""]), ("nop", [""]), ("ret", [""]), ("pop", [""]))),
+        ({"pattern": ["push", {"$and_any_order": ["nop", "nop", "ret"]}, "pop"]}, R(("push", [""]), ("nop", [""]), ("nop", [""]), ("ret", [""]), ("pop", [""]))),
+        # a range followed by an item that can match the same instruction (the run must be able to give repetitions back)
+        ({"pattern": [{"push": {"times": {"min": 1, "max": 3}}}, "push", "mov"]}, R(("push", ["%rbp"]), ("push", ["%rbx"]), ("mov", ["%rsp", "%rbp"]))),
+        ({"pattern": [{"mov": {"times": {"min": 1, "max": 2}}}, "movl"]}, R(("movl", ["%eax", "%ebx"]), ("movl", ["%eax", "%ecx"]))),
+        # $not of a bare mnemonic under mnemonics-full-match: longer mnemonics are NOT the negated one
+        ({"config": {"mnemonics-full-match": True}, "pattern": [{"$not": ["mov"]}, "ret"]},
+         R(("movl", ["%eax", "%ebx"]), ("ret", [""]), ("mov", ["%eax", "%ebx"]), ("ret", [""]), ("cmovne", ["%eax", "%ebx"]), ("ret", [""]))),
+        # operand-level $not consumes exactly one operand
+        ({"pattern": [{"mov": [{"$not": ["rax"]}, "rbx"]}]}, R(("mov", ["%rbx", "%rax"]), ("mov", ["%rcx", "%rbx"]))),
+        ({"pattern": [{"mov": ["rsp", {"$not": ["eax"]}, "rbp"]}]}, R(("mov", ["%rsp", "%rbp"]))),
+    ]
+
+
 def den_sweep(n: int, seed: int) -> Tuple[Dict[str, Any], List[Dict[str, Any]]]:
     rnd = random.Random(seed * 7919 + 17)
-    cases = []
+    cases = list(_fixed_den_cases())
     for _ in range(n):
         rule = gen_rule(rnd)
         for _k in range(3):
@@ -472,6 +514,11 @@ def undefined_macro_sweep() -> Tuple[Dict[str, Any], List[Dict[str, Any]]]:
         "dict-key-call": ["@m", {"@undef": {"reg": "rax"}}],
         "argument-value": ["@m", {"@z": {"reg": "@undef"}}],
         "inside-or": ["@m", {"$or": ["@undef", "nop"]}],
+        # a DEFINED subtree macro referenced inside a text (it cannot be expanded there): loud, never kept
+        "subtree-macro-inside-text": ["@m", {"mov": ["%@z"]}],
+        # deep inside nested operators (dict key with a body: only the final scan of the expanded tree sees it)
+        "nested-6": ["@m", {"$or": [{"$and": [{"$or": [{"$and": [{"$or": [{"$and": [{"@undef": {"times": 2}}, "nop"]}, "ret"]}, "nop"]}, "ret"]}, "nop"]}, "ret"]}],
+        "nested-6-operands": ["@m", {"$or": [{"$and": [{"$or": [{"$and": [{"$or": [{"$and": [{"@undef": ["%cl", "rax"]}, "nop"]}, "ret"]}, "nop"]}, "ret"]}, "nop"]}, "ret"]}],
     }
     jobs, ids = [], []
     # the supplied definitions are NOT used by the rule at all (only the undefined name is referenced); names that are not
@@ -574,6 +621,10 @@ def history_pool() -> List[Dict[str, Any]]:
         {"rule": {"config": {"valid_addr_range": {"min": "0x401fff", "max": "0x401000"}}, "pattern": [{"call": ["401020"]}]}, "listing": L1},
         {"rule": {"config": {"valid_addr_range": {"min": "0x30", "max": "30"}}, "pattern": [{"jmp": ["valid_addr"]}]}, "listing": L2},
         {"rule": {"config": {"valid_addr_range": {"min": "0x0", "max": "0x40"}}, "pattern": [{"jmp": ["30"]}]}, "listing": L2},
+        # malformed ranges (a missing bound, an unquoted number): whatever the operation does -- an error, most likely -- it does in
+        # every history
+        {"rule": {"config": {"valid_addr_range": {"min": "0x401000"}}, "pattern": [{"call": ["401020"]}]}, "listing": L1},
+        {"rule": {"config": {"valid_addr_range": {"min": 4198400, "max": 4202495}}, "pattern": [{"call": ["valid_addr"]}]}, "listing": L1},
     ]
     modes = [["bool", "first_find", False], ["matched_addrs_list", "all_finds", True]]
     return [dict(p, kind="mop", modes=modes) for p in pool]
@@ -604,7 +655,7 @@ def history_sweep(n: int, seed: int) -> Tuple[Dict[str, Any], List[Dict[str, Any
                 break
     return {"history_sweep": {"histories": len(seqs), "pool": len(pool),
                               "bound": "histories of 2-3 operations (all repeats, sampled i,j,i) plus two histories over the whole pool, "
-                                       "21 operations with differing flags / ranges / captures / macros / sections / empty config"}}, viol
+                                       "23 operations with differing flags / ranges / captures / macros / sections / empty config"}}, viol
 
 
 # --------------------------------------------------------------------------- parser (C08, C09, C10, C16)
@@ -678,13 +729,38 @@ def limit_lines() -> List[Tuple[str, str]]:
     out.append(("long-index", "  401150:\t42 8d 4c f8 10       \tlea    0x10(%eax,%r15d,8),%ecx"))
     out.append(("long-index-w", "  401155:\t66 42 8b 04 50       \tmov    (%rax,%r10w,2),%ax"))
     out.append(("three-mems", "  401160:\tc4 e2 71 92 04 05 00 \tvgatherdps %xmm1,0x0(,%xmm0,1),%xmm0"))
+    # older binutils pad the mnemonic to six characters plus a blank even without operands: lines that END in letters / hex
+    # digits and one or more blanks
+    for mn_, byt_ in (("lfence", "0f ae e8"), ("mfence", "0f ae f0"), ("sfence", "0f ae f8"), ("vmxoff", "0f 01 c4"), ("getsec", "0f 37"),
+                      ("fldl2e", "d9 ea"), ("retq", "c3"), ("leaveq", "c9"), ("cltq", "48 98")):
+        for tail_ in (" ", "   "):
+            out.append((f"trailing-blank-{mn_}-{len(tail_)}", f"  401170:\t{byt_.ljust(20)} \t{mn_}{tail_}"))
+    # the same line twice in a row (sections of an object file restart at 0: two one-instruction functions)
+    out.append(("dup-1", "   0:\tc3                   \tret"))
+    out.append(("dup-2", "   0:\tc3                   \tret"))
+    out.append(("dup-3", "   0:\t55                   \tpush   %rbp"))
+    out.append(("dup-4", "   0:\t55                   \tpush   %rbp"))
+    # segment overrides in front of every memory shape
+    for seg_ in ("%fs", "%gs", "%es", "%cs"):
+        out.append((f"seg-{seg_}-idx", f"  401180:\t64 48 8b 0c d8       \tmov    {seg_}:(%rax,%rbx,8),%rcx"))
+        out.append((f"seg-{seg_}-disp-idx", f"  401185:\t65 48 89 54 c8 10    \tmov    %rdx,{seg_}:0x10(%rax,%rcx,8)"))
+        out.append((f"seg-{seg_}-base", f"  40118b:\t26 8b 07             \tmov    {seg_}:(%rdi),%eax"))
+        out.append((f"seg-{seg_}-abs", f"  40118e:\t64 48 8b 04 25 28 00 \tmov    {seg_}:0x28,%rax"))
+    # index-only references with every scale
+    for sc_ in "1248":
+        out.append((f"index-only-{sc_}", f"  401195:\t48 8d 14 85 00 00 00 \tlea    0x0(,%rax,{sc_}),%rdx"))
+        out.append((f"index-only-nodisp-{sc_}", f"  40119d:\t48 8d 14 85 00 00 00 \tlea    (,%rbx,{sc_}),%rdx"))
     return out
 
 
 def decorate(rnd: random.Random, lines: List[str]) -> List[str]:
     """presentation edits of C16: labels, blank lines, headers, indentation, byte column, annotations stay semantically inert"""
     out = ["", "prog:     file format elf64-x86-64", "", "", "Disassembly of section .text:", ""]
-    for ln in lines:
+    for li, ln in enumerate(lines):
+        if li == len(lines) // 2:
+            # a section header in the middle of the code (the first header of a listing may also be missing: the plain
+            # variant of the same lines has none at all)
+            out += ["", "Disassembly of section .fini:", ""]
         if rnd.random() < 0.2:
             out += ["", f"{rnd.randrange(1 << 20):016x} <lbl_{rnd.randrange(99)}>:"]
         if rnd.random() < 0.1:
@@ -708,11 +784,18 @@ def parser_sweep(n: int, seed: int) -> Tuple[Dict[str, Any], List[Dict[str, Any]
     dec = decorate(random.Random(seed + 1), lines)
     # third job: the decorated listing under a rule whose config sets every entry that must not influence the stream
     cfg = {"style": "intel", "mnemonics-full-match": True, "operands-full-match": True, "sections": [".text"]}
+    # fourth job: the decorated listing without its FIRST section header (a later one stays): headers are presentation
+    dec_nofirst = [l_ for l_ in dec if l_ != "Disassembly of section .text:"]
     jobs = [{"kind": "parse", "lines": lines, "stream": True}, {"kind": "parse", "lines": dec, "stream": True},
-            {"kind": "parse", "lines": dec, "stream": True, "config": cfg}]
+            {"kind": "parse", "lines": dec, "stream": True, "config": cfg}, {"kind": "parse", "lines": dec_nofirst, "stream": True}]
     res = replay.run_real(jobs, timeout=1800)
     viol = []
-    a, b, b_cfg = res
+    a, b, b_cfg, b_nf = res
+    if b_nf.get("stream", {}).get("result") != a.get("stream", {}).get("result"):
+        viol.append({"input": {"plain": lines[:40], "decorated": dec_nofirst[:80]},
+                     "real": {"plain": (a.get("stream", {}).get("result") or "")[:400], "decorated": (b_nf.get("stream", {}).get("result") or "")[:400]},
+                     "disagreement": "the instruction stream changes when the first section header is removed and a later one stays "
+                                     "(section headers are presentation: they never decide which instructions exist)"})
     sc = b_cfg.get("stream", {}).get("result")
     if sc != a.get("stream", {}).get("result"):
         k = 0
@@ -1049,7 +1132,7 @@ def run(prop: str, tier: str, seed: int, force: bool = False) -> Tuple[Dict[str,
             plan.append("modes")
         if prop in ("C13",):
             plan += ["macros", "resolver", "undefined"]
-        if prop in ("C19",):
+        if prop in ("C19",) or (force and prop == "C17"):
             plan += ["undefined", "macros"]
         if prop == "C14" or (force and prop in ("C01", "C15", "C18", "C13", "C19")):
             # the configuration in effect (flags, sections, range) must be this rule's: a refuted obligation about the
@@ -1132,6 +1215,14 @@ def rerun(prop: str, doc: Dict[str, Any], path: str) -> int:
         sa, sb = a.get("stream", {}).get("result"), b.get("stream", {}).get("result")
         print(json.dumps({"default_config": sa, "with_config": sb}, indent=1)[:2000])
         bad = sa != sb
+    elif "plain" in inp and "decorated" in inp:
+        a, b = replay.run_real([{"kind": "parse", "lines": inp["plain"], "stream": True}, {"kind": "parse", "lines": inp["decorated"], "stream": True}])
+        sa, sb = a.get("stream", {}).get("result"), b.get("stream", {}).get("result")
+        # the replay file carries a prefix of both listings: the decorated one must at least contain the plain one's records
+        print(json.dumps({"plain": (sa or "")[:600], "decorated": (sb or "")[:600]}, indent=1))
+        ra, rb = (sa or "").split("|"), (sb or "").split("|")
+        k = min(len(ra), len(rb)) - 1
+        bad = ra[:k] != rb[:k] or k <= 0
     elif "line" in inp:
         r = replay.run_real({"kind": "parse", "lines": [inp["line"]]})
         exp = OM.decode_line(inp["line"])
